@@ -186,7 +186,7 @@ class C19(Check):
                 conj([no_caller_writes(), len(given) == 2, given[0] is series[0], given[1] is series[1]] +
                      [stubs.unchanged(sn, a) for sn, a in zip(snaps, series)]))
 
-    def _front_call(self, c, joint, W, fault=None, vector=False, elem='float64'):
+    def _front_call(self, c, joint, W, fault=None, vector=False, elem='float64', inf_beta=False):
         Rp = self.R
         K, N = 2, 1
         n = N * W
@@ -204,6 +204,8 @@ class C19(Check):
         lam._b.writeable = False
         T = sum(len(a) - W + 1 for a in series)
         beta = c.real('b', 0) if (joint and not vector) else caller_array(c, 'b', (T,), lo=0)
+        if inf_beta and isinstance(beta, np.ndarray):
+            beta._b.data[beta._ix[0]] = float('inf')          # concrete +inf in the caller's vector
         given = list(series)
         protected = series + [lam, beta]
         snaps = [stubs.snapshot(a) for a in protected]
@@ -245,9 +247,9 @@ class C19(Check):
                       [stubs.unchanged(sn, a) for sn, a in zip(snaps, protected)])
         return res, raised, intact
 
-    def front(self, c, joint, W, vector=False, elem='float64'):
-        c.notes.update({'kind': 'front', 'joint': joint, 'W': W, 'vector': vector, 'elem': elem})
-        res, raised, intact = self._front_call(c, joint, W, vector=vector, elem=elem)
+    def front(self, c, joint, W, vector=False, elem='float64', inf_beta=False):
+        c.notes.update({'kind': 'front', 'joint': joint, 'W': W, 'vector': vector, 'elem': elem, 'inf_beta': inf_beta})
+        res, raised, intact = self._front_call(c, joint, W, vector=vector, elem=elem, inf_beta=inf_beta)
         if raised is not None:
             c.notes['unexpected_exception'] = repr(raised)
             c.prove('front_ends_leave_inputs_alone', False, detail={'raised': repr(raised)})
